@@ -47,6 +47,7 @@ def pack(obj, fmt='<L'):
 
 
 def run(ctx):
+    integrity(ctx, ['crysp/bits.py', 'crysp/mode.py', 'crysp/padding.py'])
     ctx.rule('C05-R4 mode terms')
     cmp_many(ctx, MODE, [
         ('Mode.__init__', S.MODE_INIT), ('Mode.len', S.MODE_LEN), ('Mode.iterblocks', S.MODE_ITERBLOCKS), ('Mode.xorstr', S.MODE_XORSTR),
